@@ -430,11 +430,16 @@ def main(tier):
         tie["distinct_nontrivial"] += len(by_id) - (len(tie["failing"]) - before)
     # acceptance and the outcome model (B4) on the generic pool
     try:
-        real = attr.expand_real(gdefs)
+        real = attr.expand_real(gdefs, group=True)
         model = attr.expand_model(real)
         for i, src in gdefs:
             r = real[i]
             tie["evaluations"] += 1
+            gf, gb = attr.grouped_findings(r, src)
+            tie["failing"] += gf[:1]
+            for b in gb[:1]:
+                tie["broken"].append("B4: " + b)
+                tie["broken_details"].append({"rust_source": src})
             if r["outcome"] != "ok":
                 tie["failing"].append({"what": "a documented form on a supported shape is refused", "rust_source": src,
                                        "observed": r.get("message", r["outcome"])[:300], "expected_spec": "accepted"})
